@@ -407,7 +407,7 @@ func rulePDF417Encoder(c *Ctx) {
 					c.Check("C13-PDF-PADDING", "pdf417.getPadding/value", s.call.Pos(), k == pc, fmt.Sprint(pc), fmt.Sprint(k))
 					n.Bind[idx] = "i"
 					// appended for i = init .. while the loop condition holds: count = bound - init under the loop's reach condition
-					cond := n.EdgeCond(h, h.Succs[0])
+					cond := n.LoopCond(h)
 					reach := n.ReachCond(fn, nil, h)
 					c.Check("C13-PDF-PADDING", "pdf417.getPadding/loop-start", s.call.Pos(), init == 0, "0", fmt.Sprint(init))
 					c.expectCondC("C13-PDF-PADDING", "pdf417.getPadding/count", s.call.Pos(), cAnd(reach, cond), MustRefCond(T+"%cols > 0 && i < cols - "+T+"%cols"))
